@@ -199,11 +199,30 @@ def with_generated_postings(rng, entries):
     return out
 
 
+# postings every ledger of this check has: a lot sold with both a cost and a price, a lot held at zero cost
+FIXED_TAIL = '''
+2030-01-05 * "fixed" "buy"
+  Assets:Broker:ACME  4 ACME {10.00 USD}
+  Assets:Bank:Checking  -40.00 USD
+
+2030-01-06 * "fixed" "sell with cost and price"
+  Assets:Broker:ACME  -1 ACME {10.00 USD} @ 12.00 USD
+  Assets:Bank:Checking  12.00 USD
+  Income:Gains
+
+2030-01-07 * "fixed" "received for free"
+  Assets:Broker:ACME  3 ACME {0.00 USD, "gift"}
+  Income:Gains  0.00 USD
+'''
+
+
 def run(ctx):
     rng = ctx.rng
     n = 25 if ctx.thorough() else 5
     for lk in range(n):
         text, entries, errors, options = ledgers.gen_ledger(rng, ntxn=rng.range(4, 22))
+        text = text + FIXED_TAIL
+        entries, errors, options = ledgers.load(text)
         entries = with_generated_postings(rng, entries)
         run_ledger(ctx, lk, entries, errors, options)
         if lk == 0 and len(ctx.samples) < 6:
